@@ -187,6 +187,7 @@ func ruleC02(w *World, r *Report) {
 		"R02.4 the accepted establishment carries the local Node ID IE, an accepted cause, an F-SEID built from session.localSEID and the connection's local address, and addPdrInfo on every path, whose two guards mirror the two allocation flags; R02.5 the UP SEID is compared with 0 before it is used."
 	r.Explanation += " R02.6 the association's reader goroutine ends only on a read time-out or a closed socket (shared with C01 R01.6); R02.7 the datagram is marshalled into and written from a buffer that belongs to the call (SendPFCPMsg runs on several goroutines of one association)."
 	r.Explanation += " R02.8 the per-peer socket is read into a buffer that holds the largest UDP payload; R02.9 UP SEID uniqueness (C07 R07.5 re-filed)."
+	r.Explanation += " R02.10 the exit report of an association is RemoteAddr().String(), the key it is remembered under; R02.11 the PFCP socket only gets a read deadline."
 	r.NotDecided = "counting responses over whole histories; header field encoding (go-pfcp)"
 	dispatch := w.Fn(P, "pfcpiface.(*PFCPConn).HandlePFCPMsg")
 	send := w.Fn(P, "pfcpiface.(*PFCPConn).SendPFCPMsg")
